@@ -180,21 +180,28 @@ Print Assumptions kern_overflow_refuted.
 
 (* ================================================================== *)
 (* what "one glyph per character carrying that character and the font's
-   advance width" means *)
+   advance width" means.  The width loop of Layout as repaired by
+   fixes/C07-layout-gid-beyond-font.diff: a glyph id the font does not have
+   (>= NumGlyphs; the cmap or a substitution can produce one) gets no width,
+   its advance stays 0. *)
 Theorem identity_one_glyph_per_character : forall cm o gdef s,
   length (S_identity cm o gdef s) = length s /\
   forall i r, nth_error s i = Some r ->
     exists g, nth_error (S_identity cm o gdef s) i = Some g /\
       g_gid g = cmap_lookup cm r /\ g_text g = [r] /\ g_xoff g = 0%Z /\ g_yoff g = 0%Z /\
+      (num_glyphs o <= cmap_lookup cm r -> g_adv g = 0%Z) /\
       (is_mark gdef (cmap_lookup cm r) = true -> g_adv g = 0%Z) /\
-      (is_mark gdef (cmap_lookup cm r) = false ->
+      (cmap_lookup cm r < num_glyphs o -> is_mark gdef (cmap_lookup cm r) = false ->
          forall w, glyph_width o (cmap_lookup cm r) = Ok w -> g_adv g = w).
 Proof. exact identity_one_glyph_per_character_pf. Qed.
 Print Assumptions identity_one_glyph_per_character.
 
 (* With no applicable rule (every selected lookup leaves the sequence alone)
-   Layout returns exactly that; it panics iff a character maps to a glyph the
-   font does not have. *)
+   Layout returns exactly that.  glyphs_exist: no character maps to a glyph
+   below NumGlyphs that lacks an entry in the width slice - the only way the
+   width loop can still panic; it holds for EVERY cmap and string when the
+   outlines carry one width per glyph (glyphs_exist_consistent), which is
+   what sfnt.Read delivers. *)
 Theorem layout_no_rule_identity :
   forall (lang : Type) (matcher : lang -> list tagT -> nat) iter1 iter2
          (f : font tagT) (l : lang) gsw psw s gs gp,
@@ -208,6 +215,29 @@ Theorem layout_no_rule_identity :
        layout matcher iter1 iter2 f l gsw psw s = Panic).
 Proof. exact layout_no_rule_identity_pf. Qed.
 Print Assumptions layout_no_rule_identity.
+
+(* one width per glyph: every glyph id has an advance, for every cmap, GDEF
+   and string; then Layout returns for every selection (the only Panic left
+   is a matcher answer beyond the tag list, in NewLayouter) *)
+Theorem glyphs_exist_consistent : forall cm o gdef s,
+  outlines_consistent o -> glyphs_exist cm o gdef s.
+Proof. exact glyphs_exist_consistent_pf. Qed.
+Print Assumptions glyphs_exist_consistent.
+
+Theorem layout_never_panics_in_the_width_loop :
+  forall (lang : Type) (matcher : lang -> list tagT -> nat) iter1 iter2
+         (f : font tagT) (l : lang) gsw psw s gs gp,
+    outlines_consistent (f_outlines f) ->
+    layouter_lookups lex_leb matcher iter1 iter2 gtab_GsubDefaultFeatures (f_gsub f) l gsw = Ok gs ->
+    layouter_lookups lex_leb matcher iter1 iter2 gtab_GposDefaultFeatures (f_gpos f) l psw = Ok gp ->
+    exists out, layout matcher iter1 iter2 f l gsw psw s = Ok out /\
+                flat_map g_text out = s /\ (length out <= length s)%nat.
+Proof.
+  intros lang matcher iter1 iter2 f l gsw psw s gs gp Hc E1 E2.
+  destruct (layout_with_total f gs gp s Hc) as (out & Ho & R). exists out. split; [|exact R].
+  unfold layout. eapply eq_trans; [apply M_layout_with; eassumption|exact Ho].
+Qed.
+Print Assumptions layout_never_panics_in_the_width_loop.
 
 (* special case: a font without GSUB and GPOS *)
 Theorem layout_no_tables_identity :
